@@ -30,7 +30,7 @@ class InboundCriteria(Unit):
         "C07.gics.satisfied_iff": {"props": ["C07"], "text":
             "SATISFIED iff the number of distinct inbound tasks having a satisfied transition into the join (latest record on this route) reaches the requirement: all distinct inbound tasks for join: all, N for join: N, 1 for a non-join task"},
         "C07.gics.wip_vs_not": {"props": ["C07", "C03"], "text":
-            "otherwise WIP iff some inbound task has not decided yet and something is still active or staged ready; else NOT_SATISFIED"},
+            "otherwise WIP iff some inbound task has not decided yet - it has no record on the route, or its execution is still in flight - and something is still active or staged ready; else NOT_SATISFIED (so the unreachable-join error is not raised for a join that a running branch can still reach)"},
         "C19.gics.pure": {"props": ["C19", "C18"], "text":
             "get_inbound_criteria_status modifies nothing"},
         "C15.gics.no_internal_error": {"props": ["C15"], "text": "no exception on a well-formed state"},
@@ -61,12 +61,16 @@ class InboundCriteria(Unit):
                 present = e.branch(e.register_input("rec_%s" % p, S.mk_bool("rec_%s" % p)).z)
                 truth[p] = {"present": present, "tr": []}
                 if present:
-                    rec = {"id": p, "route": 0, "ctxs": {"in": [0]}, "prev": {}, "next": {}, "status": st.SUCCEEDED}
+                    # the inbound task has completed (its transitions are decided) or is still in flight
+                    in_flight = e.branch(e.register_input("in_flight_%s" % p, S.mk_bool("in_flight_%s" % p)).z)
+                    truth[p]["in_flight"] = in_flight
+                    rec = {"id": p, "route": 0, "ctxs": {"in": [0]}, "prev": {}, "next": {},
+                           "status": st.RUNNING if in_flight else st.SUCCEEDED}
                     sequence.append(rec)
                     tasks["%s__r0" % p] = len(sequence) - 1
                     truth[p]["rec"] = rec
             for k, p in enumerate(srcs):
-                if truth[p]["present"]:
+                if truth[p]["present"] and not truth[p]["in_flight"]:
                     key = srcs[:k].count(p)
                     tid = "j__t%d" % key
                     kind = e.choose(3)   # 0 absent, 1 present with symbolic value
@@ -121,8 +125,8 @@ class InboundCriteria(Unit):
             # decision for any of its transitions into the join yet
             for i, p in enumerate(distinct):
                 if truth[p]["present"]:
-                    rec = truth[p]["rec"]
-                    undecided[i] = z3.BoolVal(False)
+                    # a task that is still in flight has not decided on its transitions yet
+                    undecided[i] = z3.BoolVal(bool(truth[p]["in_flight"]))
             res_z = res.z if isinstance(res, SConst) else z3.IntVal(INTERN.id_of(res))
             ctx.oblige("C07.gics.satisfied_iff", (res_z == INTERN.id_of(SAT)) == want_sat, None, info)
             any_undecided = z3.Or(undecided) if undecided else z3.BoolVal(False)
